@@ -362,13 +362,16 @@ Definition scan_children (s : state) (n : node) : res (list (name * node)) :=
   end.
 Definition set_loaded (cs : list (name * node)) (n : node) : node :=
   Node (n_reals n) (n_wh n) true (fold_left (fun acc kv => aset (fst kv) (snd kv) acc) cs (n_ch n)).
-(* OverlayFs::load_directory *)
+(* OverlayFs::load_directory on one node: scan and insert the children unless already loaded *)
+Definition load1 (s : state) (n : node) : node :=
+  if n_loaded n then n
+  else match scan_children s n with Ok cs => set_loaded cs n | Err _ => n end.
 Definition load_dir (p : path) : M unit :=
   n <- get_node p ;;
   if n_loaded n then ret tt
   else fun s => match scan_children s n with
                 | Err e => (Err e, s)
-                | Ok cs => mod_node p (set_loaded cs) s
+                | Ok _ => mod_node p (load1 s) s
                 end.
 
 Definition load_if_dir (p : path) (n : node) (st : tree) : M unit :=
@@ -537,7 +540,7 @@ Definition do_mkdir (pp : path) (nm : name) (mode : N) : M unit :=
            | Some q =>
                n <- get_node q ;;
                if negb (n_wh n) then fail EEXIST
-               else ret (in_upper n, negb (upper_only n))
+               else ret (in_upper n, true)    (* a directory replacing a whiteout is always made opaque *)
            end ;;
   let '(delete_whiteout, set_opaque) := flags in
   copy_node_up pp ;;;
@@ -620,6 +623,18 @@ Definition empty_node_directory (p : path) : M unit :=
   if negb (r_upper r) then ret tt else
   empty_children p (r_layer r) (r_path r) (n_ch n).
 
+(* OverlayInode::lower_has_child: does a lower layer backing this directory hold the name? *)
+Fixpoint lower_has_child (s : state) (rs : list real) (nm : name) : res bool :=
+  match rs with
+  | [] => Ok false
+  | r :: rs' =>
+      if r_upper r || r_wh r then lower_has_child s rs' nm
+      else match real_tree s r with
+           | Some (Dir _ _ ch) => match afind nm ch with Some _ => Ok true | None => lower_has_child s rs' nm end
+           | Some _ => Err ENOTDIR
+           | None => lower_has_child s rs' nm
+           end
+  end.
 (* do_rm *)
 Definition do_rm (pp : path) (nm : name) (dir : bool) : M unit :=
   need_upper ;;;
@@ -642,7 +657,9 @@ Definition do_rm (pp : path) (nm : name) (dir : bool) : M unit :=
   copy_node_up pp ;;;
   n2 <- get_node q ;;
   pn' <- get_node pp ;;
-  let need0 := negb (upper_only n2) in
+  need0 <- (if upper_only n2
+            then fun s => match lower_has_child s (n_reals pn') nm with Ok b => (Ok b, s) | Err e => (Err e, s) end
+            else ret true) ;;
   need <- (if in_upper n2 then
              pr <- upper_real pn' EINVAL ;;
              mutate (r_layer pr) (if dir then h_rmdir (r_path pr) nm else h_unlink (r_path pr) nm) ;;;
@@ -786,8 +803,7 @@ Fixpoint load_node (fuel : nat) (s : state) (n : node) : node :=
       if n_wh n then n else
       match node_stat s n with
       | Some (Dir _ _ _) =>
-          let n1 := if n_loaded n then n
-                    else match scan_children s n with Ok cs => set_loaded cs n | Err _ => n end in
+          let n1 := load1 s n in
           Node (n_reals n1) (n_wh n1) (n_loaded n1) (map (fun kv => (fst kv, load_node f s (snd kv))) (n_ch n1))
       | _ => n
       end
